@@ -51,6 +51,12 @@ def notify_loop_ok(fn, lf, field_write_pos):
     return None
 
 
+def derives_from_moved(fn, arg):
+    """the argument is a by-value parameter temporary / local that was move-constructed from the lock"""
+    from engine.kinds import derives_from
+    return derives_from(fn, arg, lambda t: "std::move(" in t or "move(" in t)
+
+
 def run(rep, tier):
     rep.rule("C09.R1", "latch: K1 notified_ under mtx_; K2 set on the zero edge before the notify loop; loop until no waiter; K7 wait() table")
     rep.rule("C09.R2", "event: set(): store(true, >=release) -> lock -> notify_all; waiters loop on the flag under the lock")
@@ -150,45 +156,56 @@ def run(rep, tier):
             else:
                 rep.ok("C09.R1", fn, "wait(): blocks when counter > 0, returns at once when counter == 0 and notified (4 valuations)")
 
-    # ---- R2 event
-    st = one("pika::experimental::event::set")[0]
+    # ---- R2 event (set / wait are read with their private helpers set_locked / wait_locked in place)
+    DE = facts(rep, driver("c09_sync.cpp"), [r"^pika::latch::", r"^pika::experimental::event::", r"^pika::call_once$", r"^pika::barrier::"],
+               flatten=[r"^pika::experimental::event::(set_locked|wait_locked)$"])
+
+    def onee(q):
+        fs = [f for f in DE.find("^" + q + "$") if f.parent == -1]
+        if not fs:
+            raise AnalysisBroken("%s not found" % q)
+        return fs[0]
+    st = onee("pika::experimental::event::set")
+    if st.calls(r"::set_locked$"):
+        raise AnalysisBroken("event::set: set_locked could not be flattened")
     stores = [(b, i, ev) for b, i, ev in st.all_events() if ev.get("k") == "call" and callee_short(ev) == "store" and P(ev.get("recv")) == "this->event_"]
-    locks = [(b, i, ev) for b, i, ev in st.all_events() if ev.get("k") == "ctor" and ev.get("rec") == "std::unique_lock" and ev.get("var")]
-    sl = [(b, i, ev) for b, i, ev in st.all_events() if ev.get("k") == "call" and callee_short(ev) == "set_locked"]
+    locks = [(b, i, ev) for b, i, ev in st.all_events() if ev.get("k") == "ctor" and ev.get("rec") == "std::unique_lock" and ev.get("var") and
+             ev.get("args") and P(ev["args"][0]) == "this->mtx_"]
+    na = [(b, i, ev) for b, i, ev in st.all_events() if ev.get("k") == "call" and callee_short(ev) == "notify_all"]
     mo = (stores[0][2].get("mo") or ["memory_order_seq_cst"])[0] if stores else None
-    if len(stores) == 1 and len(locks) == 1 and len(sl) == 1 and T(stores[0][2]["args"][0]) == "true" and \
+    lfs = LockFlow(st)
+    if len(stores) == 1 and len(locks) == 1 and len(na) == 1 and T(stores[0][2]["args"][0]) == "true" and \
             mo in ("memory_order_release", "memory_order_seq_cst", "memory_order_acq_rel") and \
             precedes_on_all_paths(st, lambda e: e is stores[0][2], (locks[0][0], locks[0][1])) and \
-            precedes_on_all_paths(st, lambda e: e is locks[0][2], (sl[0][0], sl[0][1])):
-        rep.ok("C09.R2", st, "event_.store(true, %s) -> lock -> set_locked(std::move(l))" % mo)
+            precedes_on_all_paths(st, lambda e: e is locks[0][2], (na[0][0], na[0][1])):
+        rep.ok("C09.R2", st, "event_.store(true, %s) -> lock mtx_ -> notify_all" % mo)
     else:
         rep.bad("C09.R2", st, st.loc, "set-order", "event::set must publish the flag (store true, >=release) before taking the lock and notifying: a waiter that "
                 "checked the flag under the lock and is about to wait would otherwise miss the notification")
-    slk = one("pika::experimental::event::set_locked")[0]
-    if [1 for _, _, e in slk.all_events() if e.get("k") == "call" and callee_short(e) == "notify_all" and is_moved(e["args"][0])]:
-        rep.ok("C09.R2", slk, "set_locked notifies all waiters, consuming the lock")
+    if len(na) == 1 and na[0][2].get("args") and (is_moved(na[0][2]["args"][0]) or derives_from_moved(st, na[0][2]["args"][0])):
+        rep.ok("C09.R2", st, "set() notifies all waiters, consuming the lock")
     else:
-        rep.bad("C09.R2", slk, slk.loc, "notify-all", "event::set_locked must notify_all (future and current waiters are all released)")
-    wl = one("pika::experimental::event::wait_locked")[0]
-    ffw = FactFlow(wl)
-    ex = ffw.block_in.get(wl.exit)
-    if ex is not None and any(t and a.startswith("this->event_.load(") for a, t in ex):
-        rep.ok("C09.R2", wl, "wait_locked returns only after event_ was observed true (loop)")
-    else:
-        rep.bad("C09.R2", wl, wl.loc, "wait-loop", "wait_locked can return without the event flag having been observed true")
-    wt = one("pika::experimental::event::wait")[0]
+        rep.bad("C09.R2", st, st.loc, "notify-all", "event::set must notify_all (future and current waiters are all released)")
+    wt = onee("pika::experimental::event::wait")
+    if wt.calls(r"::wait_locked$"):
+        raise AnalysisBroken("event::wait: wait_locked could not be flattened")
     ffw = FactFlow(wt)
     lfw = LockFlow(wt)
+    ex = ffw.block_in.get(wt.exit)
+    seen_true = lambda fb: any(t and a.startswith("this->event_.load(") for a, t in (fb or ()))
     okw = True
     for b, i, ev in wt.all_events():
-        if ev.get("k") == "return" and (b, i) in ffw.before:
-            if not any(t and a.startswith("this->event_.load(") for a, t in ffw.before[(b, i)]):
-                okw = False
-    c = [(b, i, ev) for b, i, ev in wt.all_events() if ev.get("k") == "call" and callee_short(ev) == "wait_locked"]
-    if okw and len(c) == 1 and "this->mtx_" in (lfw.held_before((c[0][0], c[0][1])) or frozenset()):
-        rep.ok("C09.R2", wt, "wait(): early return only when the flag is set; otherwise wait_locked under mtx_")
+        if ev.get("k") == "return" and (b, i) in ffw.before and not seen_true(ffw.before[(b, i)]):
+            okw = False
+    if okw and ex is not None and seen_true(ex):
+        rep.ok("C09.R2", wt, "wait() returns only after event_ was observed true (early return or wait loop)")
     else:
-        rep.bad("C09.R2", wt, wt.loc, "wait", "event::wait must either see the flag set or call wait_locked with mtx_ held")
+        rep.bad("C09.R2", wt, wt.loc, "wait-loop", "event::wait can return without the event flag having been observed true")
+    c = [(b, i, ev) for b, i, ev in wt.all_events() if ev.get("k") == "call" and callee_short(ev) == "wait" and "cond_" in P(ev.get("recv"))]
+    if len(c) == 1 and "this->mtx_" in (lfw.held_before((c[0][0], c[0][1])) or frozenset()) and loop_of(wt, c[0][0]) is not None:
+        rep.ok("C09.R2", wt, "wait(): cond_.wait in a loop on the flag, with mtx_ held")
+    else:
+        rep.bad("C09.R2", wt, wt.loc, "wait", "event::wait must either see the flag set or wait on cond_ in a loop with mtx_ held")
 
     # ---- R3 call_once
     for fn in one("pika::call_once", inst=True):
@@ -321,8 +338,10 @@ def run(rep, tier):
     if not ba:
         raise AnalysisBroken("barrier_algorithm_base::arrive not found")
     ba = ba[0]
-    mods = [(b, i, ev) for b, i, ev in ba.all_events() if ev.get("k") == "call" and P(ev.get("recv") or {}).endswith(".phase") and
-            callee_short(ev) not in ("load",)]
+    # operations on a ticket's phase word, directly or through a local reference bound to it
+    from engine.kinds import derives_from
+    mods = [(b, i, ev) for b, i, ev in ba.all_events() if ev.get("k") == "call" and ev.get("recv") is not None and callee_of(ev).startswith(("std::atomic", "std::__atomic")) and
+            derives_from(ba, ev["recv"], lambda t: t.endswith(".phase")) and callee_short(ev) not in ("load",)]
     bad = [ev for b, i, ev in mods if callee_short(ev) != "compare_exchange_strong" or (ev.get("mo") or [""])[0] not in ("memory_order_acq_rel", "memory_order_seq_cst")]
     if mods and not bad:
         rep.ok("C09.R4", ba, "ticket phases change only through compare_exchange_strong(acq_rel) (%d sites)" % len(mods))
